@@ -1,9 +1,184 @@
 import Driver.Util
-open Lean
+import Torf.Spec.Lists
+open Lean Torf Torf.Lists
 namespace Driver.C16
 
-/-- ops of property C16: `c16.<name>` -/
-def handle (op : String) (_j : Json) : Except String Json :=
-  throw s!"unknown op {op}"
+/-! JSON codec (Python side: harness/props/c16.py)
+
+  op   = {"on":"tr"|"ws"|"hs"|"tier", "op":name, …}   ("tier" additionally has "ti")
+  tier value = "str" | ["u",…];  trackers value = null | "str" | [tier value,…] | {"other":1}
+  seed value = null | "str" | ["u",…] | {"other":1}
+  mi   = {"announce":s|null, "announce-list":[[…]]|null, "url-list":[…]|null, "httpseeds":[…]|null}
+  rb   = null | {"tr":[[…]], "ws":[…], "hs":[…]}
+-/
+
+def strs (j : Json) : Except String (List String) := do
+  let a ← j.getArr?
+  a.toList.mapM (·.getStr?)
+
+def optInt (j : Json) (k : String) : Except String (Option Int) :=
+  let v := j.getObjValD k
+  if v.isNull then pure none else some <$> v.getInt?
+
+def tierVal (j : Json) : Except String TierVal :=
+  match j with
+  | .str s => pure (.str s)
+  | _ => .list <$> strs j
+
+def tierVals (j : Json) : Except String (List TierVal) := do
+  let a ← j.getArr?
+  a.toList.mapM tierVal
+
+def trackersVal (j : Json) : Except String TrackersVal :=
+  match j with
+  | .null => pure .none
+  | .str s => pure (.str s)
+  | .arr _ => .list <$> tierVals j
+  | _ => pure .other
+
+def seedVal (j : Json) : Except String SeedVal :=
+  match j with
+  | .null => pure .none
+  | .str s => pure (.str s)
+  | .arr _ => .list <$> strs j
+  | _ => pure .other
+
+def uop (name : String) (j : Json) : Except String UOp := do
+  match name with
+  | "insert" => return .insert (← getInt j "i") (← getStr j "u")
+  | "append" => return .append (← getStr j "u")
+  | "extend" => return .extend (← strs (j.getObjValD "us"))
+  | "iadd" => return .iadd (← strs (j.getObjValD "us"))
+  | "delete" => return .delete (← getInt j "i")
+  | "delslice" => return .delSlice (← optInt j "a") (← optInt j "b")
+  | "clear" => return .clear
+  | "remove" => return .remove (← getStr j "u")
+  | "pop" => return .pop (← optInt j "i")
+  | "replace" => return .replace (← strs (j.getObjValD "us"))
+  | "setitem" => return .setItem (← getInt j "i") (← getStr j "u")
+  | "setslice" => return .setSlice (← optInt j "a") (← optInt j "b") (← strs (j.getObjValD "us"))
+  | _ => throw s!"unknown list op {name}"
+
+def top (name : String) (j : Json) : Except String TOp := do
+  match name with
+  | "set" => return .set (← trackersVal (j.getObjValD "v"))
+  | "insert" => return .insert (← getInt j "i") (← tierVal (j.getObjValD "v"))
+  | "append" => return .append (← tierVal (j.getObjValD "v"))
+  | "extend" => return .extend (← tierVals (j.getObjValD "vs"))
+  | "iadd" => return .iadd (← tierVals (j.getObjValD "vs"))
+  | "delete" => return .delete (← getInt j "i")
+  | "delslice" => return .delSlice (← optInt j "a") (← optInt j "b")
+  | "clear" => return .clear
+  | "remove" => return .remove (← strs (j.getObjValD "us"))
+  | "pop" => return .pop (← optInt j "i")
+  | "replace" => return .replace (← tierVals (j.getObjValD "vs"))
+  | "setitem" => return .setItem (← getInt j "i") (← tierVal (j.getObjValD "v"))
+  | "setslice" => return .setSlice (← optInt j "a") (← optInt j "b") (← tierVals (j.getObjValD "vs"))
+  | _ => throw s!"unknown trackers op {name}"
+
+def sop (name : String) (j : Json) : Except String SOp := do
+  match name with
+  | "set" => return .set (← seedVal (j.getObjValD "v"))
+  | _ => return .edit (← uop name j)
+
+def opOf (j : Json) : Except String Op := do
+  let on ← getStr j "on"
+  let name ← getStr j "op"
+  match on with
+  | "tr" => return .trackers (← top name j)
+  | "tier" => return .trackers (.tier (← getInt j "ti") (← uop name j))
+  | "ws" => return .webseeds (← sop name j)
+  | "hs" => return .httpseeds (← sop name j)
+  | _ => throw s!"unknown target {on}"
+
+def optStrs (j : Json) : Except String (Option (List String)) :=
+  if j.isNull then pure none else some <$> strs j
+
+def optTiers (j : Json) : Except String (Option Tiers) :=
+  if j.isNull then pure none else do
+    let a ← j.getArr?
+    some <$> a.toList.mapM strs
+
+def miOf (j : Json) : Except String MI := do
+  if j.isNull then return MI.init
+  let ann := j.getObjValD "announce"
+  let a ← if ann.isNull then pure none else some <$> ann.getStr?
+  let al ← optTiers (j.getObjValD "announce-list")
+  let ul ← optStrs (j.getObjValD "url-list")
+  let hs ← optStrs (j.getObjValD "httpseeds")
+  return { announce := a, announceList := al, urlList := ul, httpseeds := hs }
+
+def rbOf (j : Json) : Except String (Option ReadBack) := do
+  if j.isNull then return none
+  let t ← optTiers (j.getObjValD "tr")
+  return some ⟨t.getD [], ← strs (j.getObjValD "ws"), ← strs (j.getObjValD "hs")⟩
+
+def jstrs (xs : List String) : Json := jarr (xs.map jstr)
+def jtiers (T : Tiers) : Json := jarr (T.map jstrs)
+
+def miJson (s : MI) : Json :=
+  jobj [("announce", jopt jstr s.announce), ("announce-list", jopt jtiers s.announceList),
+        ("url-list", jopt jstrs s.urlList), ("httpseeds", jopt jstrs s.httpseeds)]
+
+def rbJson : Option ReadBack → Json
+  | none => Json.null
+  | some rb => jobj [("tr", jtiers rb.trackers), ("ws", jstrs rb.webseeds), ("hs", jstrs rb.httpseeds)]
+
+def outJson : Outcome → Json
+  | .ok => "ok"
+  | .error .url => "url"
+  | .error .value => "value"
+  | .error .index => "index"
+
+def table (j : Json) : Except String (List (String × Bool)) := do
+  let a ← getArr j "urls"
+  a.mapM fun e => do
+    let p ← e.getArr?
+    match p.toList with
+    | [s, b] => return (← s.getStr?, ← b.getBool?)
+    | _ => throw "urls: expected [string, bool]"
+
+def lookupUrl (tbl : List (String × Bool)) (s : String) : Bool := (tbl.lookup s).getD false
+
+/-- op `c16.run`: {urls, init, ops, obs?} ↦ per step: model state, outcome, read-back,
+    `specM` = Spec.holds on the model's result, `specI` = Spec.holds on the observed
+    implementation result (if given), `hyp` = hypothesis of `C16_inv_reachable_partial` for the
+    prefix ending here (URL assumption ∧ start state in Inv ∧ no index/slice assignment so far) -/
+def runOp (j : Json) : Except String Json := do
+  let tbl ← table j
+  let isUrl := lookupUrl tbl
+  let init ← miOf (j.getObjValD "init")
+  let opsJ ← getArr j "ops"
+  let ops ← opsJ.mapM opOf
+  let obsJ := (getArr j "obs").toOption.getD []
+  let assumption := tbl.all fun (s, b) => !b || isUrl (spaceToPlus s)
+  let blanks := jobj (tbl.map fun (s, _) => (s, jbool (isBlank s)))
+  let initOk := Spec.holds isUrl init (readBack isUrl init)
+  let rec go (s : MI) (ops : List Op) (obs : List Json) (clean : Bool) (acc : List Json) :
+      Except String (List Json) :=
+    match ops with
+    | [] => pure acc.reverse
+    | op :: rest => do
+      let (s', out) := step isUrl s op
+      let clean' := clean && !op.affected
+      let rb := readBack isUrl s'
+      let specI ← match obs with
+        | [] => pure Json.null
+        | o :: _ => do
+          let mi ← miOf (o.getObjValD "mi")
+          let orb ← rbOf (o.getObjValD "rb")
+          pure (jbool (Spec.holds isUrl mi orb))
+      let r := jobj [("mi", miJson s'), ("out", outJson out), ("rb", rbJson rb),
+                     ("specM", jbool (Spec.holds isUrl s' rb)), ("specI", specI),
+                     ("hyp", jbool (assumption && initOk && clean'))]
+      go s' rest obs.tail clean' (r :: acc)
+  let steps ← go init ops obsJ true []
+  return jobj [("steps", jarr steps), ("assumption", jbool assumption), ("initOk", jbool initOk),
+               ("initRb", rbJson (readBack isUrl init)), ("blank", blanks)]
+
+def handle (op : String) (j : Json) : Except String Json :=
+  match op with
+  | "c16.run" => runOp j
+  | _ => throw s!"unknown op {op}"
 
 end Driver.C16
